@@ -106,6 +106,21 @@ func init() {
 		return func(ex *Exec, fn *ssa.Function, args []Value, site string) Value {
 			if ex.mon.lockset != nil {
 				ex.mon.lockOp(ex, args[0].(Ptr), mode, acquire)
+				return nil
+			}
+			// one goroutine: acquiring (for writing) a mutex it already holds, or any lock it holds for writing, never
+			// returns: reported through the termination (unwinding) assertion
+			if ex.heldLocks == nil {
+				ex.heldLocks = map[*Value]int{}
+			}
+			c := args[0].(Ptr).C
+			switch {
+			case acquire && (ex.heldLocks[c] == 2 || (mode == 2 && ex.heldLocks[c] != 0)):
+				panic(pathAbort{"unwind: deadlock: a lock is acquired that the same goroutine already holds (" + site + ")"})
+			case acquire:
+				ex.heldLocks[c] = mode
+			default:
+				delete(ex.heldLocks, c)
 			}
 			return nil
 		}
